@@ -2,7 +2,7 @@
 import family
 import gen
 import lpev
-from props.c08 import near_twin, scaled, weakened
+from props.c08 import near_twin, print_twin, scaled, weakened
 from vcommon import seed
 
 PROP = "C07"
@@ -63,6 +63,16 @@ def gen_case(rng, i):
         S.append(({v: -a for v, a in r[0].items()}, -r[1] - rng.choice([1, 2, 2.0**-7])))
     rng.shuffle(S)
     S = S[:6]
+    if shape == 7:
+        # a row without variables (what is left of  x + 1 <= x): vacuous when its constant is >= 0, a contradiction otherwise;
+        # first, last or anywhere, in the list or in the context
+        free = ({}, rng.choice([-1, -2, -0.5, 0, 1, 3]))
+        where = rng.choice(["first", "first", "last", "any", "ctx"])
+        if where == "ctx":
+            ctx.insert(rng.randint(0, len(ctx)), free)
+        else:
+            S = S[:5]
+            S.insert({"first": 0, "last": len(S), "any": rng.randint(0, len(S))}[where], free)
     return {"S": S, "ctx": ctx}
 
 
@@ -75,6 +85,10 @@ def gen_cases(tier):
         c = gen_case(rng, i)
         c["id"] = i + 1
         c["via"] = ["list", "list", "contract", "noctx"][i % 4]
+        if i % 5 == 0:
+            tw = print_twin(rng, c["S"])        # a second call in the same process on a list that prints identically
+            if tw:
+                c["twin"] = tw
         out.append(c)
     return out
 
@@ -85,7 +99,10 @@ def run_case(case):
         ev = lpev.ev_simplify(case["S"], [], "list", with_ctx=False)
     else:
         ev = lpev.ev_simplify(case["S"], case["ctx"], via)
-    return {"id": case["id"], "ev": [ev]}
+    evs = [ev]
+    if case.get("twin"):
+        evs.append(lpev.ev_simplify(case["twin"], [] if via == "noctx" else case["ctx"], "list", with_ctx=via != "noctx"))
+    return {"id": case["id"], "ev": evs}
 
 
 def main(tier, replay=None):
@@ -93,7 +110,7 @@ def main(tier, replay=None):
         PROP, tier, gen_cases(tier), run_case,
         "(list, context) with <= 6 rows over <= 5 variables and planted redundancy: duplicates, scalings, positive combinations "
         "(slack 0, 2^-10, 1), rows implied only through the context, same left side with different bounds in any position, "
-        "near twins (integer rows scaled by 10^5, one coefficient off by one), contradictions; through TermList.simplify with/without context and through contract "
+        "near twins (integer rows scaled by 10^5, one coefficient off by one), contradictions, rows without variables (vacuous or contradictory) in any position, a second call on a list that prints identically (one coefficient larger by 2^-14 of itself); through TermList.simplify with/without context and through contract "
         "construction; non-trivial = simplification returned and dropped at least one row, or raised on an infeasible system",
         owner=lambda ev: PROP, replay=replay,
         extra=lambda rep, rd: __import__("lpalgo").conformance(rep, rd, PROP, {"reduce"}, 200 if tier == "quick" else 4000, seed()),
